@@ -12,6 +12,9 @@ import (
 // installText writes (or, with check, compares) one generated contract file.
 func installText(dst, txt string, check bool) int {
 	txt = strings.TrimRight(txt, "\n") + "\n"
+	for strings.Contains(txt, "\n\n\n") {
+		txt = strings.ReplaceAll(txt, "\n\n\n", "\n\n") // gofmt: no consecutive blank lines
+	}
 	if check {
 		cur, _ := os.ReadFile(dst)
 		if string(cur) != txt {
